@@ -313,9 +313,41 @@ func check(c Case) (string, info) {
 	if s == 0 {
 		s = 7
 	}
+	// right-hand side shapes: random; ( N_L | I ) as documented; I; ( I | N_R ); zero
+	shape := int(c.Seed>>3) % 5
+	if shape == 1 || shape == 3 {
+		rhs += n
+	} else if shape == 2 {
+		rhs = n
+	}
 	nE := make([]uint16, n*rhs)
 	for i := range nE {
 		nE[i] = rnd16(&s)
+	}
+	switch shape {
+	case 1: // ( N_L | I )
+		off := rhs - n
+		for i := 0; i < n; i++ {
+			for j := 0; j < n; j++ {
+				nE[i*rhs+off+j] = 0
+				if i == j {
+					nE[i*rhs+off+j] = 1
+				}
+			}
+		}
+	case 2, 3: // I or ( I | N_R )
+		for i := 0; i < n; i++ {
+			for j := 0; j < n; j++ {
+				nE[i*rhs+j] = 0
+				if i == j {
+					nE[i*rhs+j] = 1
+				}
+			}
+		}
+	case 4:
+		for i := range nE {
+			nE[i] = 0
+		}
 	}
 	N := gf2p16.NewMatrixFromSlice(n, rhs, toT(nE))
 	var red gf2p16.Matrix
